@@ -24,7 +24,7 @@ RULE = (
     "arrays from the real init_fn compared with the reference selection semantics, untouched rows compared with the tables; for single "
     "calls also set vs data_set vs trainable 2-step simulations and write_trainables; state = canonical (trainable keys, index groups)"
 )
-REQUIRED_COVER = ["unequal_groups_last_comp_outside", "unequal_groups_last_comp_inside", "nan_rows_skipped", "edge_key_through_type_view",
+REQUIRED_COVER = ["init_val:zero", "init_val:float", "init_val:list", "unequal_groups_last_comp_outside", "unequal_groups_last_comp_inside", "nan_rows_skipped", "edge_key_through_type_view",
                   "edge_select", "shared_over_group", "state_key", "overlapping_trainables", "set_eq_data_set_eq_trainable",
                   "write_trainables", "initial_value_is_group_mean"]
 ASSUMPTIONS = [
@@ -207,7 +207,7 @@ def run_history(modname, hist, simulate=False):
     views, keys, branch_of, cell_of, nan = TABLES[modname]
     base = _module(modname)
     m = copy.deepcopy(base)
-    wit = {"module": modname, "history": [[int(v), k] for v, k in hist], "views": [views[v][0] for v, _ in hist]}
+    wit = {"module": modname, "history": [[int(h[0]), h[1]] + list(h[2:]) for h in hist], "views": [views[h[0]][0] for h in hist]}
     last_row = len(base.nodes) - 1
 
     def viol(rule, msg, **extra):
@@ -218,13 +218,23 @@ def run_history(modname, hist, simulate=False):
     expected = {}
     plan = []
     unequal_outside = False
-    for pos, (vi, key) in enumerate(hist):
+    inits = []
+    for pos, h in enumerate(hist):
+        vi, key = h[0], h[1]
+        init = h[2] if len(h) > 2 else "none"
         groups = ref_groups(modname, vi, key)
         if groups is None:
             return None
+        ng = max(1, len(groups or []))
+        zero_ok = key not in ("radius", "length", "capacitance", "axial_resistivity")  # geometry must stay positive
+        if init == "zero" and not zero_ok:
+            return None
+        z = 0.0 if zero_ok else 0.15
+        init_val = {"none": None, "zero": 0.0, "float": 0.37, "list": [z if g == 0 else 0.21 * (g + 1) for g in range(ng)]}[init]
+        inits.append((init, init_val))
         try:
             view = views[vi][1](m)
-            view.make_trainable(key, verbose=False)
+            view.make_trainable(key, init_val, verbose=False)
         except Exception as e:
             if not groups:
                 out["refusals"].append(f"nothing_to_train:{type(e).__name__}")
@@ -255,6 +265,7 @@ def run_history(modname, hist, simulate=False):
         if key in STATE_KEYS:
             out["cover"].append("state_key")
     # created parameters: count, initial values = group means
+    params_as_returned = False
     params = m.get_parameters()
     if len(params) != len(plan):
         viol("parameter_list_length", f"{len(params)} vs {len(plan)}")
@@ -267,14 +278,25 @@ def run_history(modname, hist, simulate=False):
             return out
         tab = _table_values(base, key)
         means = np.asarray([np.mean(tab[g]) for g in groups])
-        if not np.allclose(got, means, rtol=1e-6, atol=0):  # float32 default arrays in make_trainable
-            viol("initial_value_is_group_mean", f"{key}: {got} vs {means}")
+        init, init_val = inits[pos]
+        if init == "none":
+            want0 = means
+        elif init == "list":
+            want0 = np.asarray(init_val, float)
         else:
-            out["cover"].append("initial_value_is_group_mean")
-        nv = _new_values(pos, groups)
-        scale = float(np.mean(np.abs(means))) or 1.0
-        vals_new = [means[g] * (1.0 + 0.2 * x) if key != "v" else means[g] + 5.0 * x for g, x in enumerate(nv)]
-        new_params.append({key: jnp.asarray(vals_new)})
+            want0 = np.full(len(groups), float(init_val))
+        if not np.allclose(got, want0, rtol=1e-6, atol=1e-12):  # float32 default arrays in make_trainable
+            viol("initial_value_of_trainable", f"{key} (init_val {init}): {got} vs {want0}", init=init)
+        else:
+            out["cover"].append("initial_value_is_group_mean" if init == "none" else f"init_val:{init}")
+        if init == "none":
+            nv = _new_values(pos, groups)
+            vals_new = [means[g] * (1.0 + 0.2 * x) if key != "v" else means[g] + 5.0 * x for g, x in enumerate(nv)]
+            new_params.append({key: jnp.asarray(vals_new)})
+        else:
+            # the values the user asked for are the ones that must be simulated (params straight from get_parameters())
+            new_params.append({key: jnp.asarray(want0)})
+            params_as_returned = True
     # expected arrays: table values overwritten in call order
     touched = {}
     for (key, groups), p in zip(plan, new_params):
@@ -286,8 +308,12 @@ def run_history(modname, hist, simulate=False):
                     out["cover"].append("overlapping_trainables")
                 touched[key].add(r)
                 exp[r] = pv[g]
+    if params_as_returned and len(hist) == 1:
+        new_params_used = [dict(p) for p in params]  # exactly what get_parameters() returned
+    else:
+        new_params_used = new_params
     try:
-        got_arrays = _sim_arrays(m, params=new_params)
+        got_arrays = _sim_arrays(m, params=new_params_used)
     except Exception as e:
         viol("init_fn_raised", f"{type(e).__name__}: {str(e)[:200]}")
         return out
@@ -304,14 +330,14 @@ def run_history(modname, hist, simulate=False):
             viol("row_outside_selection_changed" if outside else "selected_rows_wrong_value",
                  f"{key}: rows {bad} got {arr[bad].tolist()} want {np.asarray(want)[bad].tolist()} (selected {sel})",
                  unequal_outside=unequal_outside, key_kind="edge" if key in EDGE_KEYS else "node")
-    out["digests"].append(digest([modname, [[v, k] for v, k in hist]]))
+    out["digests"].append(digest([modname, [list(h) for h in hist]]))
     state_key = digest([[k, g] for k, g in plan])
     out["state_hash"] = modname + ":" + state_key
 
     if simulate and not out["violations"]:
         # three routes to the same model
         try:
-            r_train = np.asarray(jx.integrate(m, params=new_params, delta_t=DT))
+            r_train = np.asarray(jx.integrate(m, params=new_params_used, delta_t=DT))
             m_set = copy.deepcopy(base)
             ps = None
             m_ds = copy.deepcopy(base)
@@ -331,7 +357,7 @@ def run_history(modname, hist, simulate=False):
             if not (e2 <= TOL):
                 viol("data_set_ne_set", f"rel diff {e2}")
             # write_trainables writes exactly the simulated values
-            m.write_trainables(new_params)
+            m.write_trainables(new_params_used)
             out["cover"].append("write_trainables")
             for key in expected:
                 tab = _table_values(m, key)
@@ -381,6 +407,13 @@ def explore(ctx):
         for i in range(0, len(singles), 2):
             items.append({"module": modname, "simulate": True, "hists": [[list(s)] for s in singles[i:i + 2]]})
         n_h += len(singles)
+        # explicit initial values (float, exactly zero, list with a zero): quick on a view subset, thorough on all
+        iv = [s for s in singles if ref_groups(modname, *s) and (not quick or s[0] in QUICK_PAIR_VIEWS[modname])]
+        ivh = [[list(s) + [init]] for s in iv for init in ("zero", "float", "list")]
+        n_h += len(ivh)
+        for i in range(0, len(ivh), 6):
+            # array-level check for all; the three-route simulation only for the first chunk (quick) / all (thorough)
+            items.append({"module": modname, "simulate": (not quick) or i == 0, "hists": ivh[i:i + 6]})
         good = [s for s in singles if ref_groups(modname, *s)]
         if quick:
             sub = [s for s in good if s[0] in QUICK_PAIR_VIEWS[modname]]
